@@ -217,8 +217,13 @@ def build(t):
         c = it[idx if len(idx) > 1 else idx[0]]
     elif k == "St" and DECL[0] == "shared-fields":
         # the Field objects of the struct are TAKEN OVER from a donor struct in which a string comes first, so that every
-        # dynamic field of the struct is a later dynamic field there (class Taker: samples = Donor.samples)
-        donor = type("Dn" + tname(t), (xo.Struct,), dict({"zz_first": xo.Field(xo.String, default="donor")}, **{n: xo.Field(build(ft)) for n, ft in t[1]}))
+        # dynamic field of the struct is a later dynamic field
+        # there (class Taker: samples = Donor.samples); a number comes first too, so that the static fields lie elsewhere as well.
+        # The donor's C API and kernel descriptions have been generated BEFORE the taker is declared (whatever the generator
+        # remembers about a Field object belongs to the donor).
+        donor = type("Dn" + tname(t), (xo.Struct,), dict({"zz_pad": xo.Field(xo.Int64, default=7), "zz_first": xo.Field(xo.String, default="donor")}, **{n: xo.Field(build(ft)) for n, ft in t[1]}))
+        donor._gen_c_api()
+        donor._gen_kernels()
         c = type("St" + tname(t), (xo.Struct,), {n: getattr(donor, n) for n, ft in t[1]})
     elif k == "St":
         c = type("St" + tname(t), (xo.Struct,), {n: build(ft) for n, ft in t[1]})
